@@ -879,3 +879,193 @@ canary('c18-notice-try-send', 'C18', 'crates/edp_node/src/process.rs', """      
                 reason: reason.clone(),
             });""", 'lossy-delivery')
 benign('benign-c11-helper-relayout', 'C11', 'crates/erltf/src/term.rs', "        result |= (byte as u64) << (i * 8);", "        let shifted = (byte as u64) << (i * 8);\n        result |= shifted;")
+_NN_OLD = """            .then_with(|| a.digits.iter().rev().cmp(b.digits.iter().rev()))
+            .reverse(),"""
+_NN_NEW = """            .then_with(|| a.digits.iter().rev().cmp(b.digits.iter().rev())),"""
+benign('benign-c12-negatives-swapped', 'C12', 'crates/erltf/src/term.rs', """        (Sign::Negative, Sign::Negative) => a
+            .digits
+            .len()
+            .cmp(&b.digits.len())
+            .then_with(|| a.digits.iter().rev().cmp(b.digits.iter().rev()))
+            .reverse(),""", """        (Sign::Negative, Sign::Negative) => b
+            .digits
+            .len()
+            .cmp(&a.digits.len())
+            .then_with(|| b.digits.iter().rev().cmp(a.digits.iter().rev())),""",
+       more=[('crates/erltf/src/borrowed.rs', """        (Sign::Negative, Sign::Negative) => a
+            .digits
+            .len()
+            .cmp(&b.digits.len())
+            .then_with(|| a.digits.iter().rev().cmp(b.digits.iter().rev()))
+            .reverse(),""", """        (Sign::Negative, Sign::Negative) => b
+            .digits
+            .len()
+            .cmp(&a.digits.len())
+            .then_with(|| b.digits.iter().rev().cmp(a.digits.iter().rev())),""")])
+benign('benign-c18-remove-names-loop', 'C18', 'crates/edp_node/src/registry.rs', "        self.by_name.write().await.retain(|_, p| p != pid);", """        let mut names = self.by_name.write().await;
+        let doomed: Vec<_> = names.iter().filter(|(_, p)| *p == pid).map(|(n, _)| n.clone()).collect();
+        for n in doomed {
+            names.remove(&n);
+        }""")
+benign('benign-c14-scratch-cache-committed', 'C14', DEC, """    let (remaining, term) = parse_versioned_term_with_cache(data, cache).map_err(from_nom_error)?;
+
+    if !remaining.is_empty() {
+        let (new_remaining, payload) = parse_term(remaining, cache).map_err(from_nom_error)?;
+        if !new_remaining.is_empty() {
+            return Err(DecodeError::TrailingData(new_remaining.len()));
+        }
+        Ok((term, Some(payload)))
+    } else {
+        Ok((term, None))
+    }""", """    let mut scratch = cache.clone();
+    let (remaining, term) = parse_versioned_term_with_cache(data, &mut scratch).map_err(from_nom_error)?;
+    *cache = scratch;
+
+    if !remaining.is_empty() {
+        let (new_remaining, payload) = parse_term(remaining, cache).map_err(from_nom_error)?;
+        if !new_remaining.is_empty() {
+            return Err(DecodeError::TrailingData(new_remaining.len()));
+        }
+        Ok((term, Some(payload)))
+    } else {
+        Ok((term, None))
+    }""")
+benign('benign-c19-deadline-per-iteration', 'C19', 'crates/edp_client/src/connection.rs', """                let mut len_bytes = [0u8; 4];
+                tokio::time::timeout(timeout, read_half.read_exact(&mut len_bytes))""", """                let mut len_bytes = [0u8; 4];
+                let deadline = tokio::time::Instant::now() + timeout;
+                tokio::time::timeout_at(deadline, read_half.read_exact(&mut len_bytes))""")
+benign('benign-c03-inner-remainder-if', 'C03', DEC, """    let owned_term = match parse_term(&decompressed, cache) {
+        Ok((remaining, term)) if remaining.is_empty() => term,
+        _ => return Err(nom::Err::Failure(NomError::new(input, ErrorKind::Fail))),
+    };""", """    let (remaining, owned_term) = match parse_term(&decompressed, cache) {
+        Ok(x) => x,
+        Err(_) => return Err(nom::Err::Failure(NomError::new(input, ErrorKind::Fail))),
+    };
+    if !remaining.is_empty() {
+        return Err(nom::Err::Failure(NomError::new(input, ErrorKind::Fail)));
+    }""")
+benign('benign-c02-inflate-exact-limit', 'C02', DEC, "ZlibDecoder::new(rest).take(uncompressed_size as u64 + 1);", "ZlibDecoder::new(rest).take(u64::from(uncompressed_size) + 1);")
+benign('benign-c07-gate-helper', 'C07', 'crates/edp_client/src/connection.rs', """        message: OwnedTerm,
+    ) -> Result<()> {
+        if !self.is_connected() {
+            return Err(Error::InvalidState {
+                state: self.state(),
+            });
+        }
+
+        let control = ControlMessage::Send {""", """        message: OwnedTerm,
+    ) -> Result<()> {
+        self.ensure_connected()?;
+
+        let control = ControlMessage::Send {""",
+       more=[('crates/edp_client/src/connection.rs', "    pub async fn send_raw(&mut self, data: &[u8]) -> Result<()> {", """    fn ensure_connected(&self) -> Result<()> {
+        if !self.is_connected() {
+            return Err(Error::InvalidState {
+                state: self.state(),
+            });
+        }
+        Ok(())
+    }
+
+    pub async fn send_raw(&mut self, data: &[u8]) -> Result<()> {""")])
+benign('benign-c20-component-helper', 'C20', 'crates/edp_elixir_terms/src/date_time.rs', """        let month = u8::try_from(
+            map.get(&OwnedTerm::Atom(Atom::new("month")))?
+                .as_integer()?,
+        )
+        .ok()?;""", """        let month = small_component(map.get(&OwnedTerm::Atom(Atom::new("month")))?.as_integer()?)?;""",
+       more=[('crates/edp_elixir_terms/src/date_time.rs', "/// Represents an Elixir Date (`~D[2025-12-25]`).", "fn small_component(value: i64) -> Option<u8> {\n    u8::try_from(value).ok()\n}\n\n/// Represents an Elixir Date (`~D[2025-12-25]`).")])
+benign('benign-c02-no-prealloc', 'C02', DEC, "    let mut elements = Vec::with_capacity((len as usize).min(input.len()));", "    let mut elements = Vec::new();")
+benign('benign-c15-option-arms-reordered', 'C15', 'crates/erltf_serde/src/de.rs', "            _ => visitor.visit_some(self),\n", "            OwnedTerm::Nil => visitor.visit_some(self),\n            _ => visitor.visit_some(self),\n")
+benign('benign-c01-integer-range-contains', 'C01', ENCF, "    } else if value >= i32::MIN as i64 && value <= i32::MAX as i64 {\n        buf.put_u8(INTEGER_EXT);\n        buf.put_i32(value as i32);",
+       "    } else if let Ok(small) = i32::try_from(value) {\n        buf.put_u8(INTEGER_EXT);\n        buf.put_i32(small);")
+benign('benign-c15-integer-range-contains', 'C15', ENCF, "    } else if value >= i32::MIN as i64 && value <= i32::MAX as i64 {\n        buf.put_u8(INTEGER_EXT);\n        buf.put_i32(value as i32);",
+       "    } else if (i64::from(i32::MIN)..=i64::from(i32::MAX)).contains(&value) {\n        buf.put_u8(INTEGER_EXT);\n        buf.put_i32(value as i32);")
+benign('benign-c10-pid-match', 'C10', ENCF, """    if let Some(local_bytes) = &pid.local_ext_bytes {
+        buf.put_u8(LOCAL_EXT);
+        buf.put_slice(local_bytes);
+    } else {
+        buf.put_u8(NEW_PID_EXT);
+        encode_atom_impl(buf, &pid.node, cache)?;
+        buf.put_u32(pid.id);
+        buf.put_u32(pid.serial);
+        buf.put_u32(pid.creation);
+    }
+    Ok(())""", """    match pid.local_ext_bytes.as_ref() {
+        Some(local_bytes) => {
+            buf.put_u8(LOCAL_EXT);
+            buf.put_slice(local_bytes);
+            Ok(())
+        }
+        None => {
+            buf.put_u8(NEW_PID_EXT);
+            encode_atom_impl(buf, &pid.node, cache)?;
+            buf.put_u32(pid.id);
+            buf.put_u32(pid.serial);
+            buf.put_u32(pid.creation);
+            Ok(())
+        }
+    }""")
+benign('benign-c01-pid-match', 'C01', ENCF, """    if let Some(local_bytes) = &pid.local_ext_bytes {
+        buf.put_u8(LOCAL_EXT);
+        buf.put_slice(local_bytes);
+    } else {
+        buf.put_u8(NEW_PID_EXT);
+        encode_atom_impl(buf, &pid.node, cache)?;
+        buf.put_u32(pid.id);
+        buf.put_u32(pid.serial);
+        buf.put_u32(pid.creation);
+    }
+    Ok(())""", """    match pid.local_ext_bytes.as_ref() {
+        Some(local_bytes) => {
+            buf.put_u8(LOCAL_EXT);
+            buf.put_slice(local_bytes);
+            Ok(())
+        }
+        None => {
+            buf.put_u8(NEW_PID_EXT);
+            encode_atom_impl(buf, &pid.node, cache)?;
+            buf.put_u32(pid.id);
+            buf.put_u32(pid.serial);
+            buf.put_u32(pid.creation);
+            Ok(())
+        }
+    }""")
+benign('benign-c16-allocate-single-return', 'C16', PA, """        let next_id = id + 1;
+        if id >= MAX_PROCESSES_PER_NODE {
+            self.next_id.store(1, Ordering::Relaxed);
+            let new_serial = self.next_serial.fetch_add(1, Ordering::Relaxed) + 1;
+            let wrapped_serial = (new_serial % (u32::MAX as u64 + 1)) as u32;
+
+            Ok(ExternalPid::new(
+                self.node_name.clone(),
+                id,
+                wrapped_serial,
+                self.creation.load(Ordering::Relaxed),
+            ))
+        } else {
+            self.next_id.store(next_id, Ordering::Relaxed);
+
+            Ok(ExternalPid::new(
+                self.node_name.clone(),
+                id,
+                serial,
+                self.creation.load(Ordering::Relaxed),
+            ))
+        }""", """        let next_id = id + 1;
+        let pid_serial = if id >= MAX_PROCESSES_PER_NODE {
+            self.next_id.store(1, Ordering::Relaxed);
+            let new_serial = self.next_serial.fetch_add(1, Ordering::Relaxed) + 1;
+            (new_serial % (u32::MAX as u64 + 1)) as u32
+        } else {
+            self.next_id.store(next_id, Ordering::Relaxed);
+            serial
+        };
+        let creation = self.creation.load(Ordering::Relaxed);
+        Ok(ExternalPid::new(self.node_name.clone(), id, pid_serial, creation))""")
+benign('benign-c04-disconnect-reordered', 'C04', 'crates/edp_client/src/state_machine.rs', """        self.state = ConnectionState::Disconnected;
+        self.our_challenge = None;
+        self.their_challenge = None;
+        self.negotiated_flags = None;""", """        self.negotiated_flags = None;
+        self.their_challenge.take();
+        self.our_challenge = None;
+        self.state = ConnectionState::Disconnected;""")
